@@ -12,6 +12,7 @@ from engine import extra
 ASSUMPTIONS = [
     "A-ANTLR-TREE (Level 2): a page parsed without syntax error yields a tree that is a derivation in ZorgFileParser.atn; ParseTreeWalker calls enterR, the children left to right, exitR",
     "A-ANTLR-MINALT (Level 2): of two alternatives of one decision that derive the same tokens with the same continuation ANTLR selects the earlier one (used to exclude `unquoted_word -> priority`; side conditions checked on the ATN)",
+    "Level 2 assumes the requires clauses of the listener contracts that are token-shape facts (justified by the lexer lemmas) and the stated restriction 'no bullet-property markers' of the exit listeners (the bullet scan of _add_note is covered by the bounded tier only)",
     "Level 2 abstracts the compiler state to 38 predicates (14 control predicates relationally, 24 data predicates three-valued per control valuation); quantified frame facts are replaced by free Booleans (over-approximation)",
 ]
 
@@ -90,6 +91,12 @@ def _walk():
                 "why": "" if not A.dead else f"{len(A.dead)} dead ends; first: {A.dead[0][0].split('.')[-1]} from {[n for n, v in zip(A.names, A.dead[0][1]) if v == 1]}", "model": None})
     obs.append({"name": "L2/every-overridden-listener-method-has-a-contract", "kind": "cover", "status": "proved" if not W.missing_contracts else "undecided", "vcs": 1,
                 "detail": f"{len(W.overridden)} enter/exit methods overridden by ZorgFileCompiler", "why": "" if not W.missing_contracts else f"without contract (treated as undecided, not as identity): {sorted(W.missing_contracts)}", "model": None})
+    import antlr4
+
+    hooks = [n for n in ("enterEveryRule", "exitEveryRule", "visitTerminal", "visitErrorNode") if getattr(ZorgFileCompiler, n) is not getattr(antlr4.ParseTreeListener, n)]
+    obs.append({"name": "L2/generic-walker-hooks-are-the-inherited-no-ops", "kind": "cover", "status": "proved" if not hooks else "undecided", "vcs": 1,
+                "detail": "enterEveryRule / exitEveryRule / visitTerminal / visitErrorNode are not overridden, so only the per-rule enter/exit methods act during the walk",
+                "why": "" if not hooks else f"overridden: {hooks} (their effect is outside the walk model)", "model": None})
     obs.append({"name": "L2/walk-ends-in-a-closed-state (cover)", "kind": "cover", "status": "proved" if out else "undecided", "vcs": 1, "detail": f"{len(out)} final control valuations, {len(W.visits)} rule visits, {W.n_nodes} ATN nodes", "why": "" if out else "no final state reached", "model": None})
     for name, ok, detail in side:
         obs.append({"name": name, "kind": "lemma", "status": "proved" if ok else "refuted", "vcs": 1, "detail": detail, "why": "" if ok else detail, "model": None})
@@ -104,7 +111,10 @@ def _walk():
 def l2_file_walk(tier, seed):
     from engine import check as C
 
-    cp = C._cache_path("extra", "l2_file_walk", "any")
+    import hashlib
+
+    own = hashlib.sha256(open(__file__, "rb").read()).hexdigest()[:12]  # the engine / contracts / repo hash does not cover this file
+    cp = C._cache_path("extra", "l2_file_walk:" + own, "any")
     if os.environ.get("PYVC_NO_CACHE") != "1" and os.path.exists(cp):
         r = json.load(open(cp))
         for x in r:
